@@ -9,7 +9,7 @@ from spec import ops
 from . import source, types as ty
 from .engine import (NS, Exec, Obligation, _Builtin, _FakeSrc, _scalar, as_int, is_z3, lift, sort_of)
 from .values import (ADict, AList, ASet, BoundMethod, BreakSignal, ClassRef, ContinueSignal, Env, FStr,
-                     ModRef, Opaque, OutOfSubset, PathEnd, PyRaise, ReturnSignal, SClosure, SFun,
+                     ModRef, OMap, Opaque, OutOfSubset, PathEnd, PyRaise, ReturnSignal, SClosure, SFun,
                      SObj, fresh_name)
 
 MAX_INLINE_DEPTH = 12
@@ -961,6 +961,13 @@ class Executor(Exec):
             if name == "clear":
                 recv.clear()
                 return None
+        if isinstance(recv, OMap):
+            if name == "get":
+                r = self.mk(ty.TOpt(recv.val_type), fresh_name(recv.name + "[]"), register=True)
+                if r is None and len(args) > 1:
+                    r = args[1]
+                recv.lookups.append((args[0], r))
+                return r
         if isinstance(recv, ADict):
             if name == "get":
                 k = lift(args[0])
